@@ -12,7 +12,18 @@ import (
 	"Havoc/pkg/logger"
 )
 
+// plainAgentID reports whether an agent id names exactly one directory below
+// the agents folder (third-party agent services choose their own ids).
+func plainAgentID(id string) bool {
+	return id != "" && id != "." && id != ".." && !strings.ContainsAny(id, "/\\")
+}
+
 func (l Logr) AddAgentInput(AgentType, AgentID, User, TaskID, Input string, time string) {
+	if !plainAgentID(AgentID) {
+		logger.Error("Invalid agent id. abort")
+		return
+	}
+
 	var (
 		DemonPath    = l.AgentPath + "/" + AgentID
 		DemonLogFile = DemonPath + "/Console_" + AgentID + ".log"
@@ -48,6 +59,11 @@ func (l Logr) AddAgentInput(AgentType, AgentID, User, TaskID, Input string, time
 }
 
 func (l Logr) AddAgentRaw(AgentID, Raw string) {
+	if !plainAgentID(AgentID) {
+		logger.Error("Invalid agent id. abort")
+		return
+	}
+
 	var (
 		DemonPath    = l.AgentPath + "/" + AgentID
 		DemonLogFile = DemonPath + "/Console_" + AgentID + ".log"
@@ -80,6 +96,11 @@ func (l Logr) AddAgentRaw(AgentID, Raw string) {
 }
 
 func (l Logr) DemonAddOutput(DemonID string, Output map[string]string, time string) {
+	if !plainAgentID(DemonID) {
+		logger.Error("Invalid agent id. abort")
+		return
+	}
+
 	var (
 		DemonPath    = l.AgentPath + "/" + filepath.Clean(DemonID)
 		DemonLogFile = DemonPath + "/Console_" + DemonID + ".log"
@@ -132,6 +153,11 @@ func (l Logr) DemonAddOutput(DemonID string, Output map[string]string, time stri
 }
 
 func (l Logr) DemonAddDownloadedFile(DemonID, FileName string, FileBytes []byte) {
+	if !plainAgentID(DemonID) {
+		logger.Error("Invalid agent id. abort")
+		return
+	}
+
 	var (
 		DemonPath        = l.AgentPath + "/" + DemonID
 		DemonDownloadDir = DemonPath + "/Download"
@@ -175,6 +201,11 @@ func (l Logr) DemonAddDownloadedFile(DemonID, FileName string, FileBytes []byte)
 }
 
 func (l Logr) DemonSaveScreenshot(DemonID, Name string, BmpBytes []byte) error {
+	if !plainAgentID(DemonID) {
+		logger.Error("Invalid agent id. abort")
+		return errors.New("invalid agent id. abort")
+	}
+
 	var (
 		DemonPath          = l.AgentPath + "/" + DemonID
 		DemonScreenshotDir = DemonPath + "/Screenshots"
